@@ -54,9 +54,13 @@ def check_tree(tree):
         problems.append("log_pdf = %.9g but -log #orders = %.9g" % (lp, -math.log(len(orders))))
     probs = {}
     n_paths = 0
-    for pr, sigma, _ in explore(lambda rng: tuple(dp.idx for dp in RPD.sample(tree.copy(), rng))):
-        probs[sigma] = probs.get(sigma, 0.0) + pr
-        n_paths += 1
+    try:
+        for pr, sigma, _ in explore(lambda rng: tuple(dp.idx for dp in RPD.sample(tree.copy(), rng))):
+            probs[sigma] = probs.get(sigma, 0.0) + pr
+            n_paths += 1
+    except (AssertionError, TypeError, AttributeError, NotImplementedError) as e:
+        # the enumerating generator does not implement a numpy call the current source makes: this stand-in cannot decide (the statistical one still runs)
+        return {"tree": T.describe(tree), "orders": len(orders), "paths": n_paths, "problems": problems, "undecided": "enumerating generator: %r" % (e,)}
     if set(probs) != orders:
         problems.append("sample() support differs from the compatible orders: extra %s missing %s" % (sorted(set(probs) - orders)[:2], sorted(orders - set(probs))[:2]))
     else:
@@ -122,6 +126,29 @@ def large_interleave_stat(seed=0, draws=20000, zmax=6.5):
                     z = (cnt[i] - draws * p) / math.sqrt(draws * p * (1 - p))
                     if abs(z) > zmax:
                         out.append({"case": "interleave%s" % (sizes,), "problem": "%s item from list %d with frequency %.4f, expected %.4f (z=%.1f)" % (name, i, cnt[i] / draws, p, z)})
+    # small trees with outliers, real generator: every compatible order equally often (one clone point + two outliers: 6 orders)
+    for blocks, parent, outs in (([[0]], (-1,), (1, 2)), ([[0], [1]], (-1, 0), (2, 3)), ([[0, 1]], (-1,), (2, 3, 4))):
+        n_pts = sum(len(b) for b in blocks) + len(outs)
+        d_ = T.make_data(n_pts, dims=1, grid=3, seed=seed, outlier_p=0.2)
+        tr = T.build_tree(d_, blocks, parent, outliers=outs)
+        want = set(compatible_orders(tr))
+        cnt = {}
+        bad = False
+        n_draw = draws // 2
+        for _ in range(n_draw):
+            sg = tuple(dp.idx for dp in RPD.sample(tr.copy(), rng))
+            if sg not in want:
+                out.append({"case": "sample(%s)" % T.describe(tr), "problem": "incompatible order %s drawn" % (sg,)})
+                bad = True
+                break
+            cnt[sg] = cnt.get(sg, 0) + 1
+        if not bad:
+            p = 1.0 / len(want)
+            for o in want:
+                z = (cnt.get(o, 0) - n_draw * p) / math.sqrt(n_draw * p * (1 - p))
+                if abs(z) > zmax:
+                    out.append({"case": "sample(%s)" % T.describe(tr), "problem": "order %s drawn with frequency %.4f, expected %.4f (z=%.1f)" % (o, cnt.get(o, 0) / n_draw, p, z)})
+                    break
     # through sample(): two sibling clones of 8 points under a one-point parent, plus 3 outliers
     data = T.make_data(20, dims=1, grid=3, seed=seed, outlier_p=0.2)
     tree = T.build_tree(data, [[0], list(range(1, 9)), list(range(9, 17))], (-1, 0, 0), outliers=(17, 18, 19))
